@@ -269,6 +269,9 @@ func driveC08(t *testing.T, out *vEmitter) {
 		{[]string{"example.com"}, nil},
 		{[]string{"*"}, []string{"admins"}},
 		{[]string{".example.com"}, []string{"ops", "dev"}},
+		// a configured restriction whose entries are all blank (an unset variable in a template, say) is still a restriction
+		{[]string{"*"}, []string{""}},
+		{[]string{"*"}, []string{"", ""}},
 	}
 	who := []*sessionsapi.SessionState{
 		{Email: "user@example.com", User: "u1", Groups: []string{"admins"}},
